@@ -11,6 +11,7 @@ TRAIN_POOLS = {
     "grid4": [[0.0, 0.0], [1.0, 0.0], [0.0, 1.0], [2.0, 2.0]],
 }
 FAR = {1: [60.0], 2: [60.0, -60.0]}
+MIDFAR = {1: [14.0], 2: [12.0, -6.0]}  # gamma * d^2 between 36 and 745: exp(-.) is positive and < 1e-16
 
 
 class ClfSubject:
@@ -42,6 +43,8 @@ def _pwc(**kw):
         k.update(kw)
         if k.get("metric") == "linear":
             k["metric_dict"] = None
+        if k.get("metric_dict") is not None:
+            k["metric_dict"] = dict(k["metric_dict"])  # every classifier gets its own dict
         return ParzenWindowClassifier(classes=classes, missing_label=ml, cost_matrix=cm, random_state=rs, **k)
 
     return f
@@ -126,6 +129,8 @@ CLASSIFIERS = [
     ClfSubject("ParzenWindowClassifier[n_neighbors=1]", _pwc(n_neighbors=1), kernel=True, freq=True),
     ClfSubject("ParzenWindowClassifier[class_prior=1]", _pwc(class_prior=1.0), kernel=True, freq=True),
     ClfSubject("ParzenWindowClassifier[linear]", _pwc(metric="linear"), kernel=False, freq=True, supervised=True),
+    # a fixed bandwidth given as a numpy scalar that is not a Python float
+    ClfSubject("ParzenWindowClassifier[gamma=np.float32]", _pwc(metric_dict={"gamma": np.float32(0.5)}), kernel=True, freq=True, supervised=True),
     ClfSubject("MixtureModelClassifier[responsibilities]", _mix("responsibilities"), kernel=True, freq=True, cost=3),
     ClfSubject("MixtureModelClassifier[similarities]", _mix("similarities"), kernel=True, freq=True, cost=3),
     ClfSubject("SklearnClassifier[LogisticRegression]", _sk("logreg"), cost=3, supervised=True),
